@@ -150,6 +150,12 @@ class _:
                 ("todo-non-empty", forall(lambda k: z3.Implies(z3.And(0 <= k, k < ys.len), ys[k].rows.len > 0))),
                 ("lists", z3.And(ys.len == o.fnd.scaffolds.len, v.frgmnt.z == F.z)),
             ])(v.ordered_scaffolds, v.sub_fragments, v._it0, o.fnd.fragment),
+            # C01 / C02: in contig coordinate order the first piece keeps the contig's start and the last piece its end,
+            # whatever the strand (this is what the keep flags handed to trim_fragment are for)
+            iter_post=lambda v, b, e, o: [
+                ("first-piece-keeps-the-contig-start", z3.Implies(b._it0 == 0, v.sub_fragments[b._it0].start == o.fnd.fragment.start)),
+                ("last-piece-keeps-the-contig-end", z3.Implies(b._it0 == b.last_i, v.sub_fragments[b._it0].end == o.fnd.fragment.end)),
+            ],
             frame=lambda v, e: {"$free": ["LA.Row", "LLO.Row", "LHI.Row", "H.OverlapResult.start", "H.OverlapResult.end", "H.OverlapResult.g_ts", "H.OverlapResult.g_te"]},
         ),
     }
